@@ -143,6 +143,13 @@ def obligations(tier, seed):
     obs.append(Ob(name="C08-POS/cover", source=src, pct=900, timeout=1000,
                   meta={"desc": f"{len(TOKS)} tokens with free symbolic (line, column): every __position__ entry is the position of its keyword / value token; content equals a plain load",
                         "functions": ["MapfileTransformer.create_position_dict", "MapfileTransformer.composite"], "stubs": ["hole lexer (positions)"]}))
+    # positions refer to the text as given: the INCLUDE pre-pass (run by default) must leave INCLUDE-free text unchanged, whatever
+    # characters it contains (form feeds between tokens, NEL / U+2028 inside strings ...)
+    from checks import C15
+    for o in C15.obligations(tier, seed):
+        if o.name.startswith("C15-IDENT/"):
+            o.name = o.name.replace("C15-IDENT/", "C08-PRE/identity.")
+            obs.append(o)
     # error locations: the nested-document family of C07 (asserts line/column of every message)
     for o in C07.obligations(tier, seed):
         if o.name.startswith("C07-DEEP/") or o.name.startswith("C07-LIST/scalebar") or o.name.startswith("C07-NUM/scalebar"):
